@@ -448,12 +448,9 @@ def run(tier, seed, replay=None):
             else:
                 w = pack(au.ser_after(fr["exit"] == 0, a["rows"], a["dirs"], a["stage"]))
                 e = "case_restore %s %s %s %s" % (cnat_opt(fr["fail_at"]), cn_opt(fr["partial"]), cx_of(fr["x"]), cproj_of(fr["before"]))
-                if fr.get("x_stale") is not None:
-                    # tar extracts over whatever a killed restore left in the staging directory
-                    # (mkdir(exist_ok=True)); a repaired restore starts from an empty one: the
-                    # model must agree for one of the two staged contents
-                    e2 = "case_restore %s %s %s %s" % (cnat_opt(fr["fail_at"]), cn_opt(fr["partial"]), cx_of(fr["x_stale"]), cproj_of(fr["before"]))
-                    e = "(if (%s) =? %d then %d else %s)" % (e2, w, w, e)
+                # (fr["x_stale"], what tar would produce on top of a killed restore's left-overs, is no longer an accepted
+                # alternative: since the repair of D18 restore starts from an empty staging directory, and the model's
+                # extraction is the archive's own content)
                 exprs.append(e)
                 wants.append(w)
                 desc.append((kind, fr["note"], fr["exit"], fr["err"], job["spec"]["history"]))
